@@ -228,6 +228,9 @@ def gen_cases(tier):
         v, _, _ = build(d)
         if len(v.tlv) - 2 < 128 and d[0] != "null" and len(v.tlv) >= 2 and v.tlv[1] < 0x80:
             yield {"driver": "split", "cfg": v2c.describe(), "op": "get", "vals": [d + [{"form": 1}]] if d[0] in ("int", "u", "oct") else [d], "names": "seq", "outer_form": 1}
+    # (b') RELATIVE-OID varbind names (library extension): chains of 1..3 relative names
+    for c in gen_rel_cases(thorough):
+        yield c
     # (c) lenient class
     for d in lenient_values():
         yield {"driver": "split", "cfg": v2c.describe(), "op": "get", "vals": [d], "names": "seq"}
@@ -254,7 +257,63 @@ def gen_cases(tier):
                     yield {"driver": driver, "cfg": cfg.describe(), "op": op, "vals": sub[i : i + step], "names": "arcs"}
 
 
-# ------------------------------------------------------------------ execution
+# ------------------------------------------------------------------ RELATIVE-OID varbind names (library extension)
+
+
+def rel_resolve(prev, rel):
+    """Semantics documented by the repository's own unit tests (test_normalize, test_parse_snmp_getresponse_many_rel):
+    a relative name replaces the last len(rel) arcs of the previous varbind's (resolved) name; a relative name with at
+    least as many arcs as the previous name has after its first two is a complete OID."""
+    n, L = len(rel), len(prev)
+    if n < L - 2:
+        return tuple(prev[: L - n]) + tuple(rel)
+    return tuple(rel)
+
+
+def rel_content(arcs, full):
+    if full:
+        return bytes([arcs[0], arcs[1]]) + b"".join(rb.arc_bytes(a) for a in arcs[2:])
+    return b"".join(rb.arc_bytes(a) for a in arcs)
+
+
+def gen_rel_cases(thorough):
+    base = BASE + (2, 1, 10, 11)
+    rels = [(12,), (2, 1), (2,), (200,), (16384, 3), (3, 1, 2), (1, 1, 1), (9, 2, 16383)]
+    if thorough:
+        rels += [(4294967295,), (1, 128), (2, 1, 1, 1)]
+    import itertools as it
+
+    for k in (1, 2, 3):
+        for chain in it.product(rels, repeat=k):
+            if not thorough and k == 3 and (len(chain[0]) + len(chain[1]) + len(chain[2])) % 2:
+                continue
+            yield {"driver": "split", "cfg": Cfg("v2c").describe(), "op": "get_many", "rel": [list(base)] + [list(c) for c in chain]}
+    # a relative name that is a complete OID
+    yield {"driver": "split", "cfg": Cfg("v2c").describe(), "op": "get_many", "rel": [[1, 3, 6, 1, 2], [1, 3, 6, 2, 1, 5], [7]], "full": [1]}
+
+
+def run_rel_case(case, worlds):
+    cfg = Cfg.from_desc(case["cfg"])
+    w = worlds.get(cfg.name)
+    if w is None:
+        w = worlds[cfg.name] = drivers.SplitWorld(cfg)
+    chain = [tuple(x) for x in case["rel"]]
+    full = set(case.get("full", ()))
+    names = [chain[0]]
+    vbs = [rb.varbind(rb.enc_oid(chain[0]), rb.enc_int(100))]
+    for i, rel in enumerate(chain[1:], 1):
+        names.append(rel_resolve(names[-1], rel))
+        vbs.append(rb.varbind(rb.tlv(0x0D, rel_content(rel, i in full)), rb.enc_int(100 + i)))
+    o = w.send("get_many", [rb.oid_str(chain[0])])
+    req = drivers.open_request(cfg, w.take_request())
+    w.inject(drivers.reply_for(cfg, req, vbs))
+    out = w.recv("get_many")
+    exp = {}
+    for i, nm in enumerate(names):
+        exp[rb.oid_str(nm)] = 100 + i
+    return exp, out
+
+
 
 
 def make_reply(cfg, req, case, built):
@@ -403,6 +462,23 @@ def work(chunk):
     res = common.Result()
     worlds = {}
     for case in chunk:
+        if "rel" in case:
+            exp, out = run_rel_case(case, worlds)
+            res.count("api_calls", 2)
+            res.count("replies")
+            res.count("values", len(exp))
+            res.distinct(len(exp))
+            res.outcome("relative-names")
+            mod, fast = drivers.subject()
+            if out.kind == "exc" and isinstance(out.exc, (fast.SnmpError, RuntimeError)) and not out.is_panic():
+                res.count("relative_names_refused")  # the extension may be refused, but never mis-resolved
+            elif out.kind != "ok" or out.value != exp:
+                res.violation(
+                    "split/v2c/get_many/relative-names: wrong keys",
+                    "names %s sent as one absolute + RELATIVE-OID names must resolve to %s, caller received %r" % (case["rel"], sorted(exp), out.brief()),
+                    case,
+                )
+            continue
         got, err, built, n = run_case(case, worlds)
         res.count("api_calls", n)
         res.count("replies")
@@ -449,6 +525,9 @@ def _cls(t):
 
 def replay(case):
     common.prepare_stage()
+    if "rel" in case:
+        exp, out = run_rel_case(case, {})
+        return {"expected": exp, "observed": out.brief()}
     got, err, built, _ = run_case(case, None)
     return {"delivered": [values.show(g) for _, g in got] if isinstance(got, list) else got, "error": err, "expected": [values.show(b[0].py) for b in built]}
 
@@ -465,6 +544,7 @@ def run(tier):
     )
     rec.assume(
         "reference encoder vlib/refber.py; REAL expected value = correctly rounded exact rational (1 ulp tolerance when the mantissa exceeds 53 bits or the result is subnormal)",
+        "RELATIVE-OID varbind names are a library extension; their meaning is taken from the repository's own unit tests (tail replacement, chained); refusing them is accepted, resolving them to a different OID is not",
         "lenient class (non-minimal INTEGER contents, unsigned contents with the top bit set and no leading zero): an SnmpError is acceptable, a different value is not",
     )
     cases = list(gen_cases(tier))
